@@ -1,6 +1,8 @@
 //! Runtime-monitoring harness for mdsteele/rust-msi (see /verif/DESIGN.md).
 pub mod cpora;
 pub mod exprmodel;
+pub mod exprparse;
+pub mod querymodel;
 pub mod medium;
 pub mod model;
 pub mod observe;
